@@ -55,6 +55,7 @@ var c14Logger = slog.New(slog.NewTextHandler(c14Discard{}, &slog.HandlerOptions{
 //
 //	pattern 0: all 2-octet   1: all 4-octet   2: alternating 4-octet / 2-octet
 //	        3: AS_TRANS literally present (i%3: 23456, 4-octet, 2-octet)
+//	the second member of every segment is the boundary value of its class (65535 / 65536)
 type c14SegD struct {
 	T uint8 `json:"t"`
 	N int   `json:"n"`
@@ -69,6 +70,9 @@ type c14Seg struct {
 func c14Member(p, s, i int) uint32 {
 	two := uint32(100*(s+1) + i%90 + 1)
 	four := uint32(70000 + 1000*s + i)
+	if i == 1 {
+		two, four = 65535, 65536 // the boundary between mappable and non-mappable AS numbers
+	}
 	switch p {
 	case 0:
 		return two
@@ -325,7 +329,7 @@ func c14PanicSite() string {
 	fr := runtime.CallersFrames(pcs[:n])
 	for {
 		f, more := fr.Next()
-		if strings.Contains(f.File, "gobgp") && !strings.Contains(f.File, "zz_verif") && !strings.Contains(f.File, "/verif/") {
+		if strings.Contains(f.Function, "osrg/gobgp") && !strings.Contains(f.File, "zz_verif") && !strings.Contains(f.Function, "internal/verif") {
 			i := strings.LastIndex(f.File, "/")
 			return fmt.Sprintf("%s:%d", f.File[i+1:], f.Line)
 		}
@@ -702,6 +706,19 @@ func c14Pair(c *vr.Report, cs c14Case, asBytes, as4Bytes []byte, asp, as4 []c14S
 			break
 		}
 	}
+	if ok {
+		// RFC 6793 section 6 (beyond the wording of the property, which is silent here): confederation
+		// segments carried in AS4_PATH MUST be discarded. All AS_PATH members of this space are 2-octet
+		// values, all AS4_PATH members are above 65535, so a confederation segment with a member above
+		// 65535 in the result came from the AS4_PATH.
+		for _, s := range got {
+			if (s.T == c14CSEQ || s.T == c14CSET) && len(s.AS) > 0 && s.AS[0] > 0xffff {
+				bad("reconstruct:as4-path-confed-segment-kept:"+shape, "result %s keeps the %s segment of the AS4_PATH", c14Short(got), c14TypeName[s.T])
+				ok = false
+				break
+			}
+		}
+	}
 	if ok && lg > la {
 		how := "AS4_PATH not longer than AS_PATH"
 		if l4 > la {
@@ -794,7 +811,7 @@ func TestVerif_C14_roundtrip(t *testing.T) {
 	r.Bounds["plain_segments_max"] = maxSegs
 	r.Bounds["segment_types"] = "AS_SEQUENCE, AS_SET"
 	r.Bounds["segment_lengths"] = []int{1, 2, 254, 255}
-	r.Bounds["asn_patterns"] = "all 2-octet; all 4-octet; alternating 4-octet/2-octet; AS_TRANS literally present (23456, 4-octet, 2-octet repeating)"
+	r.Bounds["asn_patterns"] = "all 2-octet; all 4-octet; alternating 4-octet/2-octet; AS_TRANS literally present (23456, 4-octet, 2-octet repeating); the second member of a segment is 65535 resp. 65536"
 	r.Bounds["confed_runs"] = fmt.Sprintf("%d: none; one CONFED_SEQ or CONFED_SET of 1 or 2 members in the applicable patterns; CONFED_SEQ(2)+CONFED_SET(1); CONFED_SET(1)+CONFED_SEQ(2)", len(runs))
 	r.Bounds["aggregator"] = "none on every path; {2-octet 65010, 4-octet 70010, AS_TRANS 23456} on every path with <=1 plain segment"
 	r.Bounds["plain_segment_sequences"] = len(paths)
@@ -835,7 +852,7 @@ func TestVerif_C14_roundtrip(t *testing.T) {
 func TestVerif_C14_pairs(t *testing.T) {
 	r := vr.Start(t, "C14", "pairs")
 	defer r.Finish()
-	r.Rule = "every (AS_PATH, AS4_PATH) pair, each a sequence of <=3 segments over 4 segment types x lengths {1,2,255}, written to the wire by an own writer as an OLD speaker would send it (2-octet AS_PATH, 4-octet AS4_PATH), parsed by the package with the 2-octet option, then UpdatePathAttrs4ByteAs; invariants: no panic, no empty segment, no segment over 255 members / inconsistent count octet, length(result) <= length(AS_PATH), AS4_PATH longer than AS_PATH => result is the AS_PATH. length: SEQ counts members, SET counts 1, confederation segments count 0; confederation segments inside AS4_PATH are discarded before measuring (RFC 6793 section 6). non-trivial = distinct pair whose AS4_PATH keeps at least one SEQ/SET segment"
+	r.Rule = "every (AS_PATH, AS4_PATH) pair, each a sequence of <=3 segments over 4 segment types x lengths {1,2,255}, written to the wire by an own writer as an OLD speaker would send it (2-octet AS_PATH, 4-octet AS4_PATH), parsed by the package with the 2-octet option, then UpdatePathAttrs4ByteAs; invariants: no panic, no empty segment, no segment over 255 members / inconsistent count octet, no confederation segment of the AS4_PATH in the result (RFC 6793 section 6), length(result) <= length(AS_PATH), AS4_PATH longer than AS_PATH => result is the AS_PATH. length: SEQ counts members, SET counts 1, confederation segments count 0; confederation segments inside AS4_PATH are discarded before measuring (RFC 6793 section 6). non-trivial = distinct pair whose AS4_PATH keeps at least one SEQ/SET segment"
 	if r.ReplayPath() != "" {
 		var cs c14Case
 		if err := r.LoadReplay(&cs); err != nil {
